@@ -11,7 +11,8 @@ META = dict(
          "every service call the bytes accepted by the double must be a prefix of the queue concatenation, at drain "
          "exactly equal to it, and the real WireLog (buffify) must hold exactly the accepted chunks. The queues are also "
          "handed over as bytearray objects (total <= 3 / 6) and with one bytearray object queued twice in a row; delivery "
-         "must still be exact and the caller's objects unchanged afterwards. Receive side: a "
+         "must still be exact and the caller's objects unchanged afterwards; and with bufsize / .bs = 2, smaller than a "
+         "message and than the backlog (total <= 4 / 7). Receive side: a "
          "stream of 1-6 (9) distinct bytes is delivered with every cut and would-block pattern, through serviceReceives "
          "and serviceReceiveOnce with a large and a 2-byte buffer; rxbs must equal the bytes returned so far after every "
          "call and the whole stream at the end.",
@@ -23,8 +24,8 @@ import itertools
 
 from mc import core, net
 
-QUICK = dict(tx_total=6, tx_stalls=2, rx_total=6, rx_stalls=2, ba_total=3)
-THOROUGH = dict(tx_total=9, tx_stalls=3, rx_total=9, rx_stalls=3, ba_total=6)
+QUICK = dict(tx_total=6, tx_stalls=2, rx_total=6, rx_stalls=2, ba_total=3, smallbs_total=4)
+THOROUGH = dict(tx_total=9, tx_stalls=3, rx_total=9, rx_stalls=3, ba_total=6, smallbs_total=7)
 ALPHABET = b"abcdefghijklmnopqrstuvwxyz"
 TRANSPORTS = ("Client", "ClientTls", "Incomer", "IncomerTls", "Driver", "DriverDeviceNb")
 PORT = 7000
@@ -166,7 +167,7 @@ def stalled(ans):
     return ans == net.BLOCK or ans == net.N(0) or ans[0] == "ssl"
 
 
-def tx_config(kind, lens, stalls, part, replay=None, form="bytes"):
+def tx_config(kind, lens, stalls, part, replay=None, form="bytes", bs=8096):
     """All send-answer sequences for one transport and one queue.
     form: "bytes" - every message an immutable bytes object;
           "bytearray" - every message a fresh bytearray the caller keeps a reference to;
@@ -187,7 +188,7 @@ def tx_config(kind, lens, stalls, part, replay=None, form="bytes"):
 
     def run1(ch):
         fn = net.FakeNet(chooser=ch)
-        t, sock, wl, addr = make(kind, fn, 8096)
+        t, sock, wl, addr = make(kind, fn, bs)
         sock.menu = free if stalls else tight
         if form == "bytes":
             queued = list(msgs)
@@ -247,16 +248,17 @@ def tx_config(kind, lens, stalls, part, replay=None, form="bytes"):
         part.evaluations += 1
         nst = sum(1 for a in answers if a in ("block", "n:0") or a.startswith("ssl"))
         if ch.deviations():
-            part.nontrivial("tx|%s|%r|%s|%s" % (kind, lens, form, ",".join(answers)))
+            part.nontrivial("tx|%s|%r|%s|%d|%s" % (kind, lens, form, bs, ",".join(answers)))
         part.outcome("tx %d stalls, %d sends" % (nst, len(answers)))
         if bad is not None:
             part.violation("%s.serviceTxes|%s" % (kind, bad[0]),
                            "queue=%s%s answers=%s" % ("/".join(mm.decode() for mm in msgs),
-                                                      "" if form == "bytes" else " (%s)" % form, ",".join(answers)),
+                                                      ("" if form == "bytes" else " (%s)" % form) +
+                                                      ("" if bs == 8096 else " bs=%d" % bs), ",".join(answers)),
                            "%s transmit: %s" % (kind, bad[1]),
                            dict(transport=kind, direction="tx", queue=[mm.decode() for mm in msgs],
                                 send_answers=answers, choices=ch.choices, accepted=sent.decode(),
-                                case=["tx", kind, list(lens), stalls, form], queued_as=form,
+                                case=["tx", kind, list(lens), stalls, form, bs], queued_as=form, bufsize=bs,
                                 expected=total.decode(),
                                 how="queue the messages with .tx() (form bytearray: as bytearray objects; twice: the "
                                     "first bytearray object is queued two times), call .serviceTxes() repeatedly; the "
@@ -368,6 +370,8 @@ def configs(tier):
             out.append(("tx", kind, lens, b["tx_stalls"], "bytes"))
             if sum(lens) <= b["ba_total"]:
                 out.append(("tx", kind, lens, b["tx_stalls"], "bytearray"))
+            if sum(lens) <= b["smallbs_total"]:       # buffer size smaller than a message / than the backlog
+                out.append(("tx", kind, lens, b["tx_stalls"], "bytes", 2))
     for lens in ((1,), (2,), (3,), (2, 1), (3, 1)):       # first message queued twice as one object, then the rest
         for kind in TRANSPORTS:
             out.append(("tx", kind, lens, b["tx_stalls"], "twice"))
@@ -383,14 +387,14 @@ def work(cfg):
     init()
     p = core.Part()
     if cfg[0] == "tx":
-        _, kind, lens, stalls, form = cfg
-        n = tx_config(kind, lens, stalls, p, form=form)
+        _, kind, lens, stalls, form = cfg[:5]
+        n = tx_config(kind, lens, stalls, p, form=form, bs=(cfg[5] if len(cfg) > 5 else 8096))
     else:
         _, kind, nbytes, bs, once, stalls = cfg
         n = rx_config(kind, nbytes, bs, once, stalls, p)
     p.notes["%s executions" % cfg[0]] += n
     p.notes["configs"] += 1
-    if n > 1 and cfg[1] in ("Client", "IncomerTls") and cfg[2] in ((2, 1), 3) and cfg[-1] != "bytearray":
+    if n > 1 and cfg[1] in ("Client", "IncomerTls") and cfg[2] in ((2, 1), 3) and (len(cfg) < 5 or (cfg[4] != "bytearray" and len(cfg) == 5)):
         p.sample(dict(config=cfg, executions=n, last_execution_answers=LAST.get("answers")))
     return p
 
@@ -402,7 +406,8 @@ def replay(path):
     p = core.Part()
     c = r["case"]
     if c[0] == "tx":
-        tx_config(c[1], tuple(c[2]), c[3], p, replay=r["choices"], form=(c[4] if len(c) > 4 else "bytes"))
+        tx_config(c[1], tuple(c[2]), c[3], p, replay=r["choices"], form=(c[4] if len(c) > 4 else "bytes"),
+                  bs=(c[5] if len(c) > 5 else 8096))
     else:
         rx_config(c[1], c[2], c[3], c[4], c[5], p, replay=r["choices"])
     return finish_replay("C24", path, p)
@@ -436,7 +441,8 @@ def run():
     return ck.finish(
         rule="per transport class: every queue of 1-3 messages of 1-3 bytes with total <= %(tx_total)d x every sequence of "
              "send answers (each count len..0, would-block, TLS want-read) with <= %(tx_stalls)d non-progress answers, "
-             "messages as bytes, as bytearrays (total <= %(ba_total)d) and with the first bytearray object queued twice; every "
+             "messages as bytes, as bytearrays (total <= %(ba_total)d), with the first bytearray object queued twice, and as bytes "
+             "with bufsize 2 (total <= %(smallbs_total)d); every "
              "stream of 1..%(rx_total)d bytes x bufsize {8096,2} x {serviceReceives, serviceReceiveOnce} x every sequence "
              "of recv answers (each cut, would-block) with <= %(rx_stalls)d would-blocks; non-trivial = at least one "
              "non-default answer" % b,
